@@ -20,13 +20,15 @@ use std::time::Duration;
 pub enum Req { CancelAll, End(Vec<usize>) }
 
 #[derive(Clone, Debug)]
-pub struct Cfg { pub kind: Kind, pub n: usize, pub m: usize, pub streams: usize, pub req: Req, pub entries: Vec<Entry>, pub per_prod: u32, pub prefill: u32, pub delay: u32, pub fresh_wakers: bool }
+pub struct Cfg { pub kind: Kind, pub n: usize, pub m: usize, pub streams: usize, pub req: Req, pub entries: Vec<Entry>, pub per_prod: u32, pub prefill: u32, pub delay: u32, pub fresh_wakers: bool,
+    /// streams created first (they get the lowest ids) and dropped -- neither cancelled nor ended -- before the run starts
+    pub predropped: usize }
 impl Cfg {
     pub fn targeted(&self, i: usize) -> bool { match &self.req { Req::CancelAll => true, Req::End(v) => v.contains(&i) } }
     pub fn json(&self) -> J {
         J::obj().with("kind", J::s(self.kind.name())).with("N", J::i(self.n as i64)).with("M", J::i(self.m as i64)).with("streams", J::i(self.streams as i64))
             .with("request", J::s(format!("{:?}", self.req))).with("producers", J::Arr(self.entries.iter().map(|e| J::s(e.name())).collect()))
-            .with("events_per_producer", J::i(self.per_prod as i64)).with("prefill", J::i(self.prefill as i64)).with("requester_delay_steps", J::i(self.delay as i64)).with("fresh_wakers", J::Bool(self.fresh_wakers))
+            .with("events_per_producer", J::i(self.per_prod as i64)).with("prefill", J::i(self.prefill as i64)).with("requester_delay_steps", J::i(self.delay as i64)).with("fresh_wakers", J::Bool(self.fresh_wakers)).with("streams_created_first_and_dropped_uncancelled_before_the_run", J::i(self.predropped as i64))
     }
 }
 
@@ -50,7 +52,8 @@ pub fn draw_cfg(rng: &mut Rng, only: Option<&str>) -> Cfg {
     if n > 0 { while (prefill + per_prod * nprod as u32) as usize > n { if prefill > 0 { prefill -= 1 } else if per_prod > 1 { per_prod -= 1 } else { nprod -= 1 } } }
     let mut es = entries_for(kind); es.retain(|e| *e != Entry::SendAsyncSuspended);
     let entries: Vec<Entry> = (0..nprod).map(|_| *rng.pick(&es)).collect();
-    Cfg { kind, n, m, streams, req, entries, per_prod, prefill, delay: rng.below(40) as u32, fresh_wakers: rng.chance(1, 3) }
+    let predropped = if kind != Kind::MultiMmap && streams < m && rng.chance(1, 3) { 1 + rng.below((m - streams) as u64) as usize } else { 0 };
+    Cfg { kind, n, m, streams, req, entries, per_prod, prefill, delay: rng.below(40) as u32, fresh_wakers: rng.chance(1, 3), predropped }
 }
 
 pub fn block_on_paused<F: std::future::Future>(f: F) -> F::Output {
@@ -60,7 +63,10 @@ pub fn block_on_paused<F: std::future::Future>(f: F) -> F::Output {
 
 pub fn one_run(cfg: &Cfg, rc: &RunCfg, acc: &mut Acc) -> (Option<J>, u64, bool) {
     let ch = chan::make(cfg.kind, cfg.n, cfg.m, false).expect("instantiation");
+    let early: Vec<_> = (0..cfg.predropped).map(|_| ch.create_stream()).collect();
     let mut strms: Vec<_> = (0..cfg.streams).map(|_| ch.create_stream()).collect();
+    drop(early);
+    if cfg.predropped > 0 { acc.count("runs_with_lower_stream_ids_dropped_uncancelled_beforehand", 1) }
     let stream_ids: Vec<u32> = strms.iter().map(|s| s.id()).collect();
     if rc.lane == Lane::Free { for (i, s) in strms.iter_mut().enumerate() { if cfg.targeted(i) { crate::drive::preregister(s) } else { crate::drive::preregister_noop(s) } } }
     let mut accepted_prefill: Vec<u64> = Vec::new();
